@@ -63,7 +63,10 @@ RULE = ('cases: list4/list5 = one list from the Coq encoder (address size 4/8 x 
         'section through the same object after each yield; 60 of them on DWARF 2-4 files with 2.. lists back to back; '
         'tail sharing = 40 files + 40 sessions where attributes (sec_offset/data4/data8) and offset-table slots '
         '(loclistx/rnglistx) designate the 2nd.. entry of another list, in all four section kinds; long = pre-v5 '
-        'lists of 129/130/257/1000 entries (quick: one size per address size x byte order); malformed = truncations and unknown kinds (model vs '
+        'lists of 129/130/257/1000 entries (quick: one size per address size x byte order); indirect = 30 files + 30 '
+        'sessions where about half of the attributes are declared DW_FORM_indirect and carry the real form in the DIE; '
+        'collide = 25 files + 25 sessions with both generations where a pre-v5 and a v5 unit designate numerically equal '
+        'offsets in .debug_ranges/.debug_rnglists and .debug_loc/.debug_loclists; malformed = truncations and unknown kinds (model vs '
         'implementation only). distinct = hash(kind, abstract); non-trivial = at least one list entry or one '
         'in-domain classification')
 
@@ -224,8 +227,12 @@ def _list_items(its):
     return [it for it in its if it[0] == 'list']
 
 
-def gen_file(rng, size, indexed=False, dense=False, overlap=False):
+def gen_file(rng, size, indexed=False, dense=False, overlap=False, indirect=False, collide=False):
     """One whole-file scenario (see module docstring).  size: 0 small .. 2 large.
+    indirect: about half of the attributes are declared DW_FORM_indirect in the abbreviation and carry their real
+    form (sec_offset, data4/8, loclistx, rnglistx, exprloc, ...) in the DIE ("<form>@indirect").
+    collide: both generations present; a pre-v5 unit and a v5 unit designate numerically EQUAL offsets in
+    .debug_ranges / .debug_rnglists and in .debug_loc / .debug_loclists (the two offset spaces are unrelated).
     overlap: debugging entries and offset-table slots also designate lists that start at the 2nd.. entry of another
     list (tail sharing: ['sub', name, section, form, unit block|None, list, entry, slot|None]).
     indexed: favour v5 sections with non-empty offset tables referenced through DW_FORM_loclistx/rnglistx.
@@ -233,8 +240,8 @@ def gen_file(rng, size, indexed=False, dense=False, overlap=False):
     by many debugging entries."""
     le = rng.random() < 0.5
     asz = rng.choice([4, 8])
-    has4 = dense or rng.random() < (0.3 if indexed else 0.55)
-    has5 = not dense and ((not has4) or rng.random() < 0.5)
+    has4 = dense or collide or rng.random() < (0.3 if indexed else 0.55)
+    has5 = collide or (not dense and ((not has4) or rng.random() < 0.5))
     nl = [1, 3, 5][size]
     sc = {'le': le, 'asz': asz}
     nlen = (lambda: rng.choice([2, 2, 3, 4, 6])) if overlap else (lambda: _nlen(rng))
@@ -242,14 +249,14 @@ def gen_file(rng, size, indexed=False, dense=False, overlap=False):
         sc['loc4'] = _items(rng, lambda: gen_v4loc(rng, asz, _nlen(rng)), True, rng.randint(2, nl + 2), gaps=False)
         sc['rng4'] = _items(rng, lambda: gen_v4rng(rng, asz, _nlen(rng)), False, rng.randint(2, nl + 2), gaps=False)
     elif has4:
-        sc['loc4'] = _items(rng, lambda: gen_v4loc(rng, asz, nlen()), True, rng.randint(0, nl)) if rng.random() < 0.85 else None
-        sc['rng4'] = _items(rng, lambda: gen_v4rng(rng, asz, nlen()), False, rng.randint(0, nl)) if rng.random() < 0.85 else None
+        sc['loc4'] = _items(rng, lambda: gen_v4loc(rng, asz, nlen()), True, rng.randint(0, nl)) if collide or rng.random() < 0.85 else None
+        sc['rng4'] = _items(rng, lambda: gen_v4rng(rng, asz, nlen()), False, rng.randint(0, nl)) if collide or rng.random() < 0.85 else None
         if sc['loc4'] is None and sc['rng4'] is None:
             sc['loc4'] = _items(rng, lambda: gen_v4loc(rng, asz, _nlen(rng)), True, 1)
     else:
         sc['loc4'] = sc['rng4'] = None
     if has5:
-        ntab = rng.choice([1, 1, 2])
+        ntab = 1 if collide else rng.choice([1, 1, 2])
         tables = []
         for _ in range(ntab):
             tables.append({'pre': _bytes(rng, rng.choice([0, 8, 8, 12, 3])),
@@ -276,18 +283,38 @@ def gen_file(rng, size, indexed=False, dense=False, overlap=False):
                             index[j] = [li, rng.randint(1, n - 1)]
                 us.append([rng.random() < 0.3, 5, asz, 0, index, its, ti])
             return us
-        sc['loc5'] = units(lambda ntbl: gen_lle(rng, asz, ntbl, nlen()), True, False) if rng.random() < 0.8 else None
-        sc['rng5'] = units(lambda ntbl: gen_rle(rng, asz, ntbl, nlen()), False, True) if rng.random() < 0.8 else None
+        sc['loc5'] = units(lambda ntbl: gen_lle(rng, asz, ntbl, nlen()), True, False) if collide or rng.random() < 0.8 else None
+        sc['rng5'] = units(lambda ntbl: gen_rle(rng, asz, ntbl, nlen()), False, True) if collide or rng.random() < 0.8 else None
         if sc['loc5'] is None and sc['rng5'] is None:
             sc['rng5'] = units(lambda ntbl: gen_rle(rng, asz, ntbl, nlen()), False, True)
     else:
         sc['tables'] = []
         sc['loc5'] = sc['rng5'] = None
+    if collide:
+        # the first list of the first v5 block sits right after the header and the offset table; put a pre-v5
+        # list at the same offset of the pre-v5 section (after a gap of that many bytes)
+        for k5, k4, g5, g4 in (('rng5', 'rng4', lambda: gen_rle(rng, asz, len(tables[0]['tbl']), rng.randint(1, 3)),
+                                lambda: gen_v4rng(rng, asz, rng.randint(1, 3))),
+                               ('loc5', 'loc4', lambda: gen_lle(rng, asz, len(tables[0]['tbl']), rng.randint(1, 3)),
+                                lambda: gen_v4loc(rng, asz, rng.randint(1, 3)))):
+            u0 = sc[k5][0]
+            u0[5].insert(0, ['list', [], g5()])
+            u0[4][:] = [[x[0] + 1, x[1]] if isinstance(x, list) else x + 1 for x in u0[4]]
+            o5 = (20 + 8 * len(u0[4])) if u0[0] else (12 + 4 * len(u0[4]))
+            sc[k4][:0] = [['gap', _bytes(rng, o5)], ['list', [], g4()]]
     # ---- units of .debug_info
     p_base, p_x = (0.95, 0.85) if indexed else (0.8, 0.6)
     cus = []
-    for _ in range(rng.randint(1, [2, 3, 4][size])):
-        if has4 and has5:
+    ncus = rng.randint(1, [2, 3, 4][size])
+    forced = []
+    if collide:
+        ncus = max(ncus, 2)
+        forced = [rng.choice([3, 4]), 5]
+        rng.shuffle(forced)
+    for cui in range(ncus):
+        if cui < len(forced):
+            ver = forced[cui]
+        elif has4 and has5:
             ver = rng.choice([2, 3, 4, 5, 5])
         elif has5:
             ver = 5
@@ -449,6 +476,17 @@ def gen_file(rng, size, indexed=False, dense=False, overlap=False):
         cu['dies'].append(top)
         for _ in range(rng.randint(3, 6) if dense else rng.randint(0, [2, 3, 5][size])):
             cu['dies'].append(die_attrs(False))
+        if cui < len(forced):       # the colliding designations: list 0 of either generation's sections
+            f4 = 'DW_FORM_sec_offset' if ver == 4 else 'DW_FORM_data4'
+            cu['dies'].append([['ref', 'DW_AT_ranges', 'rng5', 'DW_FORM_sec_offset', 0, 0, None],
+                               ['ref', 'DW_AT_frame_base', 'loc5', 'DW_FORM_sec_offset', 0, 0, None, False]] if ver >= 5 else
+                              [['ref', 'DW_AT_ranges', 'rng4', f4, 0], ['ref', 'DW_AT_frame_base', 'loc4', f4, 0, False]])
+        if indirect:
+            for attrs in cu['dies']:
+                for at in attrs:
+                    if at[0] != 'base' and rng.random() < 0.5:
+                        fi = 2 if at[0] == 'lit' else 3
+                        at[fi] += '@indirect'
         cus.append(cu)
     sc['cus'] = [[c['version'], c['is64'], c.get('table', -1), c['dies']] for c in cus]
     return ['file', [sc['le'], sc['asz'], sc['loc4'], sc['rng4'], sc['tables'], sc['loc5'], sc['rng5'], sc['cus']]]
@@ -594,6 +632,17 @@ def gen(ctx):
     for size, n in ((1, 25 * T), (2, 15 * T)):
         for _ in range(n):
             a = gen_file(rng, size, indexed=rng.random() < 0.6, overlap=True)[1]
+            cases.append(('session', [a, gen_script(rng, a)]))
+    # ---- attributes declared DW_FORM_indirect; numerically equal offsets in the sections of the two generations
+    for size, n in ((1, 20 * T), (2, 10 * T)):
+        for _ in range(n):
+            cases.append(tuple(gen_file(rng, size, indexed=True, indirect=True, overlap=rng.random() < 0.3)))
+            a = gen_file(rng, size, indexed=True, indirect=True)[1]
+            cases.append(('session', [a, gen_script(rng, a)]))
+    for size, n in ((0, 10 * T), (1, 15 * T)):
+        for _ in range(n):
+            cases.append(tuple(gen_file(rng, size, collide=True, indirect=rng.random() < 0.2)))
+            a = gen_file(rng, size, collide=True)[1]
             cases.append(('session', [a, gen_script(rng, a)]))
     # ---- long pre-v5 lists (entry offsets and lengths of every entry, far into the list)
     sizes = [129, 130, 257, 1000]
@@ -839,9 +888,16 @@ def _assemble(a, s, built):
     f['cuviews'] = []
     for ver, is64, ti, dies in cus:
         cdies = []
+        inds = set()
         for attrs in dies:
             out = []
             for at in attrs:
+                # "<form>@indirect": declared DW_FORM_indirect in the abbreviation, <form> is the real form in the DIE
+                fi = 2 if at[0] == 'lit' else 3
+                if at[0] != 'base' and at[fi].endswith('@indirect'):
+                    at = list(at)
+                    at[fi] = at[fi][:-len('@indirect')]
+                    inds.add((len(cdies), len(out)))
                 if at[0] == 'base':
                     name, i = at[1], at[2]
                     v = bases[i] if name == 'DW_AT_addr_base' else \
@@ -874,7 +930,10 @@ def _assemble(a, s, built):
                         out.append((name, form, e[1], ('list',) + tgt))
             cdies.append(out)
         f['cus'].append({'version': ver, 'is64': is64, 'asz': asz, 'table': ti,
-                         'dies': [[(n, fm, v) for n, fm, v, _ in d] for d in cdies], 'meta': cdies})
+                         'dies': [[(n, fm, v) for n, fm, v, _ in d] for d in cdies], 'meta': cdies,
+                         # what the .debug_info builder writes (the model and the API see the real form)
+                         'bdies': [[(n, ('DW_FORM_indirect>' + fm) if (di_, ai) in inds else fm, v)
+                                    for ai, (n, fm, v, _) in enumerate(d)] for di_, d in enumerate(cdies)]})
         f['cuviews'].append([ver, is64, asz, [[[n, fm, v] for n, fm, v, _ in d] for d in cdies]])
     return f
 
@@ -1087,7 +1146,7 @@ def _observe_impl(f):
     from elftools.dwarf.locationlists import LocationLists, LocationListsPair, LocationParser, LocationExpr
     from elftools.dwarf.ranges import RangeLists, RangeListsPair
     le, asz = f['le'], f['asz']
-    info, abbrev, cu_offs = B.build_info(le, [{'version': c['version'], 'is64': c['is64'], 'asz': c['asz'], 'dies': c['dies']}
+    info, abbrev, cu_offs = B.build_info(le, [{'version': c['version'], 'is64': c['is64'], 'asz': c['asz'], 'dies': c['bdies']}
                                               for c in f['cus']])
     di = B.make_dwarfinfo(le, asz, dict(info=info, abbrev=abbrev, loc=f['bytes']['loc'], ranges=f['bytes']['ranges'],
                                         loclists=f['bytes']['loclists'], rnglists=f['bytes']['rnglists'], addr=f['bytes']['addr']))
@@ -1307,7 +1366,7 @@ def _impl_session(f, script):
     from elftools.dwarf.locationlists import LocationLists, LocationParser
     from elftools.dwarf.ranges import RangeLists
     le, asz = f['le'], f['asz']
-    info, abbrev, cu_offs = B.build_info(le, [{'version': c['version'], 'is64': c['is64'], 'asz': c['asz'], 'dies': c['dies']}
+    info, abbrev, cu_offs = B.build_info(le, [{'version': c['version'], 'is64': c['is64'], 'asz': c['asz'], 'dies': c['bdies']}
                                               for c in f['cus']])
     di = B.make_dwarfinfo(le, asz, dict(info=info, abbrev=abbrev, loc=f['bytes']['loc'], ranges=f['bytes']['ranges'],
                                         loclists=f['bytes']['loclists'], rnglists=f['bytes']['rnglists'], addr=f['bytes']['addr']))
